@@ -34,6 +34,7 @@ type c18Prog struct {
 	Appends []int   `json:"appends"`          // pointer counts of a small log built with the writer key
 	Reopen  int     `json:"reopen"`           // loader used to reopen the log before appending again (index, mod 4)
 	KeyBuf  int     `json:"keyBuf,omitempty"` // how the writer's codec got its key: 0 as usual; 1 from a buffer the caller wipes afterwards; 2 from a buffer into which the caller then loads the other reader's key
+	Wrapped bool    `json:"wrapped,omitempty"` // the writer's codec is used through a struct that embeds it (a delegating wrapper)
 	Derive  bool    `json:"derive,omitempty"` // the readers' codecs (no key / other key) are derived from the writer's codec object with ApplyOptions instead of being built from scratch
 	Opts    int     `json:"opts"`             // CreateEntryOptions of a second write of the entry: bit 0 Pin, bit 1 PreSigned
 }
@@ -50,6 +51,7 @@ func genC18(t *rapid.T) c18Prog {
 		Opts:    rapid.IntRange(0, 3).Draw(t, "opts"),
 		KeyBuf:  rapid.SampledFrom([]int{0, 0, 1, 2}).Draw(t, "keyBuf"),
 		Derive:  rapid.IntRange(0, 2).Draw(t, "deriveReaders") == 0,
+		Wrapped: rapid.IntRange(0, 3).Draw(t, "wrappedCodec") == 0,
 	}
 }
 
@@ -176,6 +178,9 @@ func checkNoFragments(tb ev.TB, raw []byte, links []cid.Cid) {
 	}
 }
 
+// delegatingIO is a codec that hands everything to the keyed codec it embeds.
+type delegatingIO struct{ *cbor.IOCbor }
+
 // C18 — with a link key, stored blocks never reveal the log's structure.
 func runC18(tb ev.TB, p c18Prog) ev.Result {
 	ctx := context.Background()
@@ -198,10 +203,21 @@ func runC18(tb ev.TB, p c18Prog) ev.Result {
 		copy(buf, world.LinkKeyBytes(rk)) // the same buffer serves to load the next key
 		otherio = world.IOFromBuffer(buf)
 	}
+	if p.Wrapped {
+		// an application wraps the codec it was given (to count writes, say): the wrapper promotes every method of the
+		// keyed codec, the pre-sign step included
+		if base, ok := wio.(*cbor.IOCbor); ok {
+			wio = delegatingIO{base}
+		}
+	}
 	if p.Derive {
 		// an application that holds the group's codec derives the others from it: "the same codec without a key",
 		// "the same codec with that other key"
-		if base, ok := wio.(*cbor.IOCbor); ok {
+		base, ok := wio.(*cbor.IOCbor)
+		if d, isWrapped := wio.(delegatingIO); isWrapped {
+			base, ok = d.IOCbor, true
+		}
+		if ok {
 			noio = base.ApplyOptions(&cbor.Options{})
 			otherio = base.ApplyOptions(&cbor.Options{LinkKey: world.LinkKey(rk)})
 		}
@@ -394,6 +410,6 @@ func runC18(tb ev.TB, p c18Prog) ev.Result {
 
 func TestC18(t *testing.T) {
 	c := ev.Get("C18")
-	c.Rule = "rapid generates entries as in C08 (0-7 predecessors, 0-7 references incl. CIDv0/raw CIDs, binary payloads) written with one of 6 link keys (and written again with generated create options: pinned and/or hashed before signing), plus a small log (1-8 appends with pointer counts 0..16) written with that key. Oracles: the stored bytes contain no binary or textual form (raw CID bytes, multihash, digest, hex, base32/36/58/64 with and without multibase prefix) of any predecessor/reference or of any earlier block of the log - nor a fragment of one (16 characters of a textual form, 10 bytes of a binary form), be it in the bytes of the block or in what its text fields carry once base64 or hex is taken off - and decode to a node without links; a reader holding the same key (separately constructed codec) recovers identical ordered lists, verifies, merges and loads the whole log; readers with no key or another key - their codecs built from scratch or, in a third of the cases, derived from the writer's codec object with ApplyOptions - get an error or empty lists and load at most the entry itself. Non-trivial = entry with >= 1 predecessor and >= 1 reference; distinct = distinct program."
+	c.Rule = "rapid generates entries as in C08 (0-7 predecessors, 0-7 references incl. CIDv0/raw CIDs, binary payloads) written with one of 6 link keys - in a quarter of the cases through a delegating wrapper that embeds the keyed codec - (and written again with generated create options: pinned and/or hashed before signing), plus a small log (1-8 appends with pointer counts 0..16) written with that key. Oracles: the stored bytes contain no binary or textual form (raw CID bytes, multihash, digest, hex, base32/36/58/64 with and without multibase prefix) of any predecessor/reference or of any earlier block of the log - nor a fragment of one (16 characters of a textual form, 10 bytes of a binary form), be it in the bytes of the block or in what its text fields carry once base64 or hex is taken off - and decode to a node without links; a reader holding the same key (separately constructed codec) recovers identical ordered lists, verifies, merges and loads the whole log; readers with no key or another key - their codecs built from scratch or, in a third of the cases, derived from the writer's codec object with ApplyOptions - get an error or empty lists and load at most the entry itself. Non-trivial = entry with >= 1 predecessor and >= 1 reference; distinct = distinct program."
 	ev.Check(t, "C18", genC18, runC18)
 }
